@@ -212,10 +212,11 @@ class World(object):
             else:
                 raise ValueError(ftype)
         self.fit = f
+        self.num = f  # the fit whose public results are the expectation (a never-plotted twin when plotting re-minimises)
 
     # -- reference numbers --------------------------------------------------------------
     def pars(self):
-        return [float(p) for p in self.fit.parameter_values]
+        return [float(p) for p in self.num.parameter_values]
 
     def model_at_data(self):
         p = self.pars()
